@@ -830,10 +830,16 @@ func (s *Subscription) Dispose() {
 	}
 
 	// Release requests still waiting for the subscription to get ready. They
-	// will find errDisposedSubscription through Error.
-	for _, rcb := range rcbs {
-		rcb.loading--
-		s.testReady(rcb)
+	// will find errDisposedSubscription through Error. It is done from the
+	// connection's queue, once the callback that disposes the subscription
+	// has completed, and not at all if the connection is closing.
+	if len(rcbs) > 0 {
+		s.c.Enqueue(func() {
+			for _, rcb := range rcbs {
+				rcb.loading--
+				s.testReady(rcb)
+			}
+		})
 	}
 }
 
